@@ -438,6 +438,8 @@ class CongClosureHOL:
         
         def get_proofterm(u, v):
             """Get proof term corresponding to u = v."""
+            if u == v:
+                return ProofTerm.reflexive(self.index[u])
             path = explain[(u, v)]
             cur_pos = u
             pt = ProofTerm.reflexive(self.index[u])
@@ -464,7 +466,7 @@ class CongClosureHOL:
                     cur_pos = b
                 else:
                     assert b == cur_pos
-                    pt = pt.transitive(pt, eq_pt.symmetric())
+                    pt = pt.transitive(eq_pt.symmetric())
                     cur_pos = a
 
             return pt
